@@ -416,12 +416,12 @@ def main():
         extra_broken += wbroken
         if tier == 'thorough':
             import selftest as st
-            selftest, sbroken = st.run(rule_names, scratch)
+            selftest, sbroken = st.run(rule_names, scratch, repo=a.root)
             extra_broken += sbroken
-            seeded, s2broken = st.run_seeded(prop, rule_names, scratch)
+            seeded, s2broken = st.run_seeded(prop, rule_names, scratch, repo=a.root)
             extra_broken += s2broken
             selftest = dict(selftest or {}, seeded_changes=seeded)
-            refac, s3broken = st.run_refactors(prop, rule_names, scratch, site_files={r['file'] for r in sites})
+            refac, s3broken = st.run_refactors(prop, rule_names, scratch, repo=a.root, site_files={r['file'] for r in sites})
             extra_broken += s3broken
             selftest = dict(selftest, refactorings=refac)
         if wsum:
